@@ -48,6 +48,17 @@ CHECKS.update({
    technique='Coq proof over hand-written generic model; bit-exact PrimFloat differential correspondence',
    ref='DESIGN.md section 7, C18'),
 })
+CHECKS.update({
+ 'C15': dict(
+   text='Machine-checked proof (Coq) about a transcription of the random-state mechanism (decorator, context manager, validation, dataset context blocks): for every '
+        'operation history the global generator is preserved (also when the body raises), non-interference between models, advance/write-back, equal seeds equal streams, '
+        'dataset determinism and world preservation (induction over op lists, unbounded). Which functions are protected is generated from the AST every run and decided by '
+        'vm_compute (all public samplers decorated). Tie: step-by-step trace correspondence on the real decorator with RNG states mapped to (seed,count) tokens; '
+        'the property itself is also checked on every real sampler class.',
+   note=TB + 'Model.Rng is hand-written (correspondence, not translation); RNG states are abstract tokens; sampler bodies are oracles (k draws, may raise).',
+   technique='Coq induction over operation histories on a hand-written state machine; AST-generated decorator facts; trace correspondence',
+   ref='DESIGN.md section 7, C15'),
+})
 NOT_YET = {}
 def main():
     props = [json.loads(l) for l in open(os.path.join(V, 'properties.jsonl'))]
